@@ -25,7 +25,22 @@ var junkNumbers = []string{"NaN", "nan", "Inf", "-Inf", "+inf", "1e999", "-1e999
 func corrupt(r *rand.Rand, text string) string {
 	lines := strings.Split(text, "\n")
 	pick := func() int { return r.Intn(len(lines)) }
-	switch r.Intn(24) {
+	switch r.Intn(25) {
+	case 24: // a heading of the file declared once more, at the end or right away: with notes only, with nothing, with one entry
+		var heads []string
+		for _, l := range lines {
+			if len(l) > 1 && l[0] != ' ' && l[0] != '\t' && l[0] != '#' && l[0] != '-' && strings.HasSuffix(strings.TrimRight(l, " \r"), ":") {
+				heads = append(heads, strings.TrimRight(l, " \r"))
+			}
+		}
+		if len(heads) > 0 {
+			h := heads[r.Intn(len(heads))]
+			again := []string{h + "\n  # source: the label\n", h + "\n  # a plain note\n  # another: one\n", h + "\n", h + "\n  extra: 1\n", h + "\n  #\n"}[r.Intn(5)]
+			if r.Intn(2) == 0 {
+				return strings.TrimRight(text, "\n") + "\n" + again
+			}
+			return again + text
+		}
 	case 23: // a long malformed line that is mostly multi-byte characters (more bytes than characters, around 200 and far beyond)
 		long := []string{strings.Repeat("ж", 130), strings.Repeat("茶", 80), strings.Repeat("🍵", 60), strings.Repeat("щ", 700), strings.Repeat("é", 101)}[r.Intn(5)]
 		bad := []string{"  " + long + ": 1oo", "  " + long, "  x: " + long, "  - " + long + " " + long + ": 1,5"}[r.Intn(4)]
